@@ -24,7 +24,7 @@ ASSUMPTIONS = [
     "'discarded' for prune/expand/replace-with-deletion = nodes reachable from the operated root before but not after",
     "attach and replace without deletion do not change the registry",
 ]
-REQUIRED = ["op:borrow", "documents_closed_and_reopened", "op:create", "op:copy", "op:from_xml", "op:from_json", "op:attach", "op:replace_delete", "op:replace_keep", "op:prune",
+REQUIRED = ["nodes_in_one_copy", "op:borrow", "documents_closed_and_reopened", "op:create", "op:copy", "op:from_xml", "op:from_json", "op:attach", "op:replace_delete", "op:replace_keep", "op:prune",
             "op:prune_strict", "op:expand", "op:delete", "op:delete_keep_children", "op:forget", "op:replace_rejected", "id_stress_nodes", "ops_discarding", "ops_creating"]
 EXHAUSTIVE = {"quick": False, "thorough": False}
 
@@ -106,6 +106,7 @@ def small_doc(rng):
 
 
 STYLE = [0]
+COUNTER = [10_000_000]
 
 
 def fresh_json(root):
@@ -113,11 +114,15 @@ def fresh_json(root):
     obj = json.loads(metapype_io.to_json(root))
 
     style = STYLE[0]
-    STYLE[0] = (style + 1) % 4
+
+    STYLE[0] = (style + 1) % 5
 
     def new_id():
-        # ids as other tools write them: lower case, UPPER CASE, in braces, as a URN
+        # ids as other tools write them: lower case, UPPER CASE, in braces, as a URN - or plain numbers
         u = str(uuid.uuid4())
+        if style == 4:
+            COUNTER[0] += 1
+            return COUNTER[0]
         return u if style == 0 else u.upper() if style == 1 else "{" + u.upper() + "}" if style == 2 else "urn:uuid:" + u
 
     def walk(o):
@@ -450,6 +455,30 @@ def id_space_stress(ctx, count):
     ctx.distinct(("id-stress", count))
 
 
+def big_copy(ctx, n_items):
+    """One copy() of a subtree of more than 2**16 nodes under the registry monitor: every created node registered under an id of its
+    own, nothing else touched; then the copy is deleted by its root id and every one of its nodes is gone."""
+    root = Node("attributeList")
+    for i in range(n_items):
+        a = Node("attribute")
+        for nm in ("attributeName", "attributeDefinition", "storageType"):
+            a.add_child(Node(nm, content=str(i)))
+        root.add_child(a)
+    history = [["big_copy", 4 * n_items + 1]]
+    mon = Monitor(ctx, history)
+    wit = lambda: {"big_copy": n_items}
+    before = dict(Node.store)
+    c = root.copy()
+    c.parent = None
+    made = snapshot.walk(c)
+    ctx.count("nodes_in_one_copy", len(made))
+    mon.check("copy", before, made, [], wit)
+    before = dict(Node.store)
+    Node.delete_node_instance(c.id)
+    mon.check("delete", before, [], made, wit)
+    emlkit.discard(root)
+
+
 def run(ctx, params):
     if params.get("repo_tests"):
         from vlib import repotests
@@ -459,6 +488,7 @@ def run(ctx, params):
     Node.store.clear()  # start every shard from an empty registry (harness hygiene, not an operation under test)
     if params.get("histories"):
         id_space_stress(ctx, 250_000 if ctx.tier == "quick" else 400_000)
+        ctx.case(big_copy, ctx, 16500, seconds=600.0)
     for h in range(params["histories"]):
         ctx.case(one_history, ctx, gen, h, seconds=60.0)
         ctx.count("histories")
@@ -466,6 +496,10 @@ def run(ctx, params):
 
 
 def replay(ctx, witness):
+    if "big_copy" in witness:
+        big_copy(ctx, witness["big_copy"])
+        ctx.distinct(1)
+        return
     if "id_stress" in witness:
         id_space_stress(ctx, witness["id_stress"])
         ctx.distinct(1)
